@@ -3,6 +3,7 @@ import re
 
 from mirlib import astlib
 from mirlib.astlib import walk, find, last_seg
+from mirlib.cfg import CFG
 from mirlib.dataflow import DefUse, base_local
 from mirlib.program import norm_callee
 from .tables import idents_in, builder_calls
@@ -286,3 +287,127 @@ def flt1_lossless_float_codec_compares_bits(ctx):
             ctx.ok('FLT-1', '%s|bit-comparisons-only' % b.name,
                    'no f64/f32 comparison in the body; values are related through to_bits()/XOR',
                    where(b.blocks[0].term))
+
+
+# ------------------------------------------------------------------------------------ FLT-2
+def _narrowing_sites(body):
+    """(stmt, dst, src) for `_d = copy _s as f32 (FloatToFloat)` and the back-casts
+    `_e = move _d as f64 (FloatToFloat)` in a body."""
+    body.parse()
+    down, up = [], []
+    for bid, blk in body.blocks.items():
+        if blk.cleanup:
+            continue
+        for s in blk.stmts:
+            if s.kind != 'assign':
+                continue
+            m = re.match(r'^(?:move|copy) (.+) as (f32|f64) \(FloatToFloat\)$', s.rhs.strip())
+            if not m:
+                continue
+            (down if m.group(2) == 'f32' else up).append((bid, s, base_local(s.lhs), base_local(m.group(1))))
+    return down, up
+
+
+def flt2_exact_narrowing_test(ctx):
+    ctx.rule('FLT-2', 'a float section is stored as f32 only if every value survives the round trip '
+                      'f64 -> f32 -> f64 *exactly*: the round-tripped value is used in an equality '
+                      'test only (no tolerance arithmetic), and the narrowing store is guarded by '
+                      'that test', floor=2)
+    P = ctx.P
+    tests = {}     # body name -> exact round-trip test present
+    n = 0
+    for b in P.fn_bodies():
+        if b.crate != 'locustdb':
+            continue
+        down, up = _narrowing_sites(b)
+        if not down:
+            continue
+        du = DefUse(b)
+        dsts = {d for (_bid, _s, d, _src) in down}
+        for (bid, s, d, src) in up:
+            org = du.origins(src)
+            if not (org['locals'] & dsts):
+                continue      # widening of a genuine f32 value, not a round trip
+            n += 1
+            fw = du.forward(d)
+            bad = None
+            exact = False
+            for l in fw:
+                for (b2, kind, obj) in du.uses.get(l, []):
+                    if kind == 'stmt' and obj.kind == 'assign':
+                        r = obj.rhs.strip()
+                        if re.match(r'^(Eq|Ne)\(', r):
+                            exact = True
+                        elif re.match(r'^(Sub|Add|Mul|Div|Rem|Lt|Le|Gt|Ge)(WithOverflow|Unchecked)?\(', r) or r.startswith('Neg('):
+                            bad = obj
+                    elif kind == 'term' and obj.kind == 'call':
+                        f = norm_callee(obj.func or '')
+                        if re.search(r'(f64|f32)::(abs|sub|max|min|mul_add|powi|sqrt)$', f) or \
+                                re.search(r'PartialOrd.*::(lt|le|gt|ge|partial_cmp)$', f) or f.endswith('::abs_sub'):
+                            bad = obj
+                        elif f.endswith('::to_bits') or re.search(r'PartialEq.*::(eq|ne)$', f):
+                            exact = True
+            tests[b.name] = exact and bad is None
+            ctx.check('FLT-2', '%s|round-trip-compared-exactly' % b.name, exact and bad is None,
+                      'the value cast f64 -> f32 -> f64 is compared with the original by equality'
+                      if exact and bad is None else
+                      'the round-tripped value enters %s: a tolerance accepts values that do not '
+                      'survive the narrowing, they come back changed' % (getattr(bad, 'code', bad) or 'no comparison at all'),
+                      where(bad if bad is not None else s))
+    ctx.require(n >= 1, 'FLT-2: no f64 -> f32 -> f64 round-trip test found (anchor)')
+    # storing narrowings: a narrowing whose result is not cast back must sit behind an `all(..)`
+    # of an exact test in the function that owns the closure
+    from .durability import top_function
+    from mirlib import inline as _inl
+    g = _inl._helper_graph(P, True)
+    m = 0
+    for b in P.fn_bodies():
+        if b.crate != 'locustdb':
+            continue
+        down, up = _narrowing_sites(b)
+        du = DefUse(b)
+        upsrc = set()
+        for (_bid, _s, _d, src) in up:
+            upsrc |= du.origins(src)['locals']
+        storing = [(bid, s) for (bid, s, d, _src) in down if d not in upsrc]
+        if not storing:
+            continue
+        top = top_function(P, b)
+        top.parse()
+        cfg = CFG(top)
+        duT = DefUse(top)
+        # the call in `top` that uses this closure
+        use_blocks = [blk.id for blk, t in top.calls() if not blk.cleanup and b in P.closures_in_text(t.func or '')] \
+            if top is not b else [storing[0][0]]
+        for blk in top.blocks.values():
+            for s_ in blk.stmts:
+                if top is not b and s_.kind == 'assign' and s_.rhs.startswith('{') and b in P.closures_in_text(s_.rhs.split('}')[0] + '}'):
+                    use_blocks.append(blk.id)
+        guards = []
+        for blk, t in top.calls():
+            if blk.cleanup or not re.search(r'Iterator>::all::<', t.func or ''):
+                continue
+            cl = P.closures_in_text(t.func)
+            okc = False
+            for c in cl:
+                seen, work = set(), [c.name]
+                while work:
+                    x = work.pop()
+                    if x in seen:
+                        continue
+                    seen.add(x)
+                    if tests.get(x):
+                        okc = True
+                    work.extend(g.get(x, ()))
+            if not okc:
+                continue
+            r = base_local(t.dest)
+            for (b3, k3, o3) in duT.uses.get(r, []):
+                if k3 == 'term' and o3.kind == 'switch':
+                    guards += [tg for (v, tg) in o3.targets if v != '0']
+        m += 1
+        ok = bool(use_blocks) and all(any(cfg.dominates(gd, ub) for gd in guards) for ub in use_blocks)
+        ctx.check('FLT-2', '%s|narrowing-store-guarded' % b.name, ok,
+                  'values are narrowed to f32 for storage only on the true edge of an `all(..)` over the '
+                  'exact round-trip test (%d guard edge(s))' % len(guards), where(storing[0][1]))
+    ctx.require(m >= 1, 'FLT-2: no narrowing store found (anchor)')
